@@ -74,3 +74,19 @@ package common
 //@   ensures deneb: fork_idx(slot / spec.SLOTS_PER_EPOCH, spec.ALTAIR_FORK_EPOCH, spec.BELLATRIX_FORK_EPOCH, spec.CAPELLA_FORK_EPOCH, spec.DENEB_FORK_EPOCH, spec.ELECTRA_FORK_EPOCH, spec.FULU_FORK_EPOCH) == 4 ==> v == spec.DENEB_FORK_VERSION
 //@   ensures electra: fork_idx(slot / spec.SLOTS_PER_EPOCH, spec.ALTAIR_FORK_EPOCH, spec.BELLATRIX_FORK_EPOCH, spec.CAPELLA_FORK_EPOCH, spec.DENEB_FORK_EPOCH, spec.ELECTRA_FORK_EPOCH, spec.FULU_FORK_EPOCH) == 5 ==> v == spec.ELECTRA_FORK_VERSION
 //@   ensures fulu: fork_idx(slot / spec.SLOTS_PER_EPOCH, spec.ALTAIR_FORK_EPOCH, spec.BELLATRIX_FORK_EPOCH, spec.CAPELLA_FORK_EPOCH, spec.DENEB_FORK_EPOCH, spec.ELECTRA_FORK_EPOCH, spec.FULU_FORK_EPOCH) == 6 ==> v == spec.FULU_FORK_VERSION
+
+// ---------------------------------------------------------------- versioning.go (C14)
+
+//@ sort VersionT = Version
+//@ sort RootT = Root
+// hash-tree-root of ForkData(version, genesis_validators_root): computed by ztyp, uninterpreted here
+//@ ufun fork_data_root(VersionT, RootT) RootT
+
+//@ func ComputeForkDataRoot(currentVersion, genesisValidatorsRoot) r
+//@   trusted
+//@   ensures r == fork_data_root(currentVersion, genesisValidatorsRoot)
+
+// compute_fork_digest: the first four bytes of the fork data root
+//@ func ComputeForkDigest(currentVersion, genesisValidatorsRoot) digest
+//@   property C14
+//@   ensures forall k :: 0 <= k < 4 ==> digest[k] == fork_data_root(currentVersion, genesisValidatorsRoot)[k]
